@@ -103,6 +103,10 @@ HARNESSES = {
     ],
     "C09": [
         H("ieee_cmp_flip", "data", "K.ieee_cmp_flip", complete=True),
+        # "thresholds that are zero or negative never shorten a run": every per-infoset bound the loops sum is >= 0
+        H("c02_cum_regret_formula_n1", "data", "C09.K.cum_regret.nonneg", bounded=B3),
+        H("c02_cum_regret_formula_n2", "data", "C09.K.cum_regret.nonneg", bounded=B3),
+        H("c02_cum_regret_empty", "data", "C09.K.cum_regret.nonneg", bounded="empty slice; all iteration numbers"),
     ],
     "C10": [
         H("c10_multinomial_inverse_cdf", "multinomial", "C10.K.multinomial.inverse_cdf",
